@@ -54,8 +54,15 @@ def extract_c16(repo: Path) -> str:
     meta_p = m.function(isa, 'pressure_at_altitude_isa_bada4', coq_name='isa_pressure')
     if meta_p['guards']:
         raise Untranslatable(f'standard_atmosphere.py: pressure guards changed: {meta_p["guards"]}')
-    m.raw('Definition alt_out_of_range (v_altitude : T N) : bool := (ltb '
-          + m.expr(ast.parse('25000', mode='eval').body, {}) + ' v_altitude).')
+    # the range guard itself: `if np.any(<cond on altitude>): raise ValueError(...)`
+    tmod = m._src(isa)
+    tfn = find_function(tmod, 'temperature_at_altitude_isa_bada4')
+    gs = [s for s in tfn.body if isinstance(s, ast.If) and all(isinstance(x, ast.Raise) for x in s.body)]
+    if len(gs) != 1 or not (isinstance(gs[0].test, ast.Call) and ast.unparse(gs[0].test.func) == 'np.any'
+                            and len(gs[0].test.args) == 1):
+        raise Untranslatable('standard_atmosphere.py: altitude range guard changed')
+    m.raw('Definition alt_out_of_range (v_altitude : T N) : bool := '
+          + m.bexpr(gs[0].test.args[0], {'altitude': 'v_altitude'}, 'standard_atmosphere.py:guard') + '.')
 
     wpath = src / 'weather.py'
     mod = m._src(wpath)
